@@ -126,3 +126,15 @@ def joint(job):
         return out
     finally:
         cleanup(tmp)
+
+
+def lex(job):
+    """the joint-action reader on raw texts: [[name, params]...] or the exception class"""
+    out = []
+    for t in job["texts"]:
+        try:
+            j = mate.parse_action_call(t)
+            out.append({"members": [[a.name, list(a.parameters)] for a in j.actions]})
+        except Exception as e:  # noqa
+            out.append({"raised": type(e).__name__})
+    return out
